@@ -394,8 +394,8 @@ func slot(k int) int { return ((k % 2) + 2) % 2 }
 func (f *feed) drain(k int) «Iter[int]» {
 	«YieldFrom»(f.cur)
 	«Yield»(-1)
-	«YieldFrom»(f.all[slot(k)])
-	«Yield»(-2)
+	«YieldFrom[int]»(f.all[slot(k)]) // type argument written out
+	«Yield[int]»(-2)
 	«YieldFrom»(f.byk[slot(k)])
 	«Yield»(-3)
 	«YieldFrom»(f.nxt.cur)
